@@ -36,6 +36,9 @@ type Log struct {
 	LogID     int64
 	Preorder  bool // PREORDERED_LOG: only AddSequencedLeaves writes
 	NoDedup   bool // like Trillian's memory storage: duplicates are queued again
+	// DupAsRPCError makes QueueLeaf answer a duplicate with a gRPC AlreadyExists ERROR (no leaf) instead of the
+	// in-band status: a backend that does so gives the front end nothing to build an SCT from.
+	DupAsRPCError bool
 	leaves    []*trillian.LogLeaf // sequenced leaves (index = position)
 	tree      mtree.Tree
 	pending   []*trillian.LogLeaf
@@ -152,6 +155,17 @@ func (l *Log) AppendRaw(leafValue, extraData []byte) {
 	l.integrate(&trillian.LogLeaf{LeafValue: leafValue, ExtraData: extraData, LeafIdentityHash: mtreeHash(leafValue)})
 }
 
+// Preset stores a leaf as if an earlier front end had queued it (it is pending, and a later QueueLeaf with the
+// same identity hash is answered as a duplicate of it).
+func (l *Log) Preset(leaf *trillian.LogLeaf) {
+	l.mu.Lock()
+	defer l.mu.Unlock()
+	lf := proto.Clone(leaf).(*trillian.LogLeaf)
+	lf.MerkleLeafHash = mtreeHash(lf.LeafValue)
+	l.byID[string(lf.LeafIdentityHash)] = lf
+	l.pending = append(l.pending, lf)
+}
+
 // Publish publishes a root over all sequenced leaves.
 func (l *Log) Publish(nanos uint64) { l.mu.Lock(); defer l.mu.Unlock(); l.publish(nanos) }
 
@@ -230,6 +244,9 @@ func (l *Log) QueueLeaf(ctx context.Context, in *trillian.QueueLeafRequest, _ ..
 		leaf.LeafIdentityHash = leaf.MerkleLeafHash
 	}
 	var out *trillian.QueuedLogLeaf
+	if _, dup := l.byID[string(leaf.LeafIdentityHash)]; dup && !l.NoDedup && l.DupAsRPCError {
+		return nil, status.Errorf(codes.AlreadyExists, "leaf already exists")
+	}
 	if prev, dup := l.byID[string(leaf.LeafIdentityHash)]; dup && !l.NoDedup {
 		out = &trillian.QueuedLogLeaf{Leaf: proto.Clone(prev).(*trillian.LogLeaf), Status: &statuspb.Status{Code: int32(codes.AlreadyExists), Message: "leaf already exists"}}
 	} else {
